@@ -59,29 +59,30 @@ func (c *Consistent) hash(key string) int64 {
 
 // pick get a  node
 func (c *Consistent) pick(sessions *sync.Map, key string) getty.Session {
+	session := c.lookup(key)
+	if session != nil && session.IsClosed() {
+		// the circle is stale: rebuild it from the sessions that are open now and look again
+		c.refreshHashCircle(sessions)
+		session = c.lookup(key)
+	}
+	if session == nil || session.IsClosed() {
+		return RandomLoadBalance(sessions, key)
+	}
+	return session
+}
+
+// lookup returns the session owning key on the current circle, nil if the circle has none for it
+func (c *Consistent) lookup(key string) getty.Session {
 	hashKey := c.hash(key)
+	c.RLock()
+	defer c.RUnlock()
 	index := sort.Search(len(c.sortedHashNodes), func(i int) bool {
 		return c.sortedHashNodes[i] >= hashKey
 	})
-
 	if index == len(c.sortedHashNodes) {
-		return RandomLoadBalance(sessions, key)
+		return nil
 	}
-
-	c.RLock()
-	session, ok := c.hashCircle[c.sortedHashNodes[index]]
-	if !ok {
-		c.RUnlock()
-		return RandomLoadBalance(sessions, key)
-	}
-	c.RUnlock()
-
-	if session.IsClosed() {
-		go c.refreshHashCircle(sessions)
-		return c.firstKey()
-	}
-
-	return session
+	return c.hashCircle[c.sortedHashNodes[index]]
 }
 
 // refreshHashCircle refresh hashCircle
@@ -108,8 +109,10 @@ func (c *Consistent) refreshHashCircle(sessions *sync.Map) {
 		return sortedHashNodes[i] < sortedHashNodes[j]
 	})
 
+	c.Lock()
 	c.sortedHashNodes = sortedHashNodes
 	c.hashCircle = hashCircle
+	c.Unlock()
 }
 
 func (c *Consistent) firstKey() getty.Session {
